@@ -114,3 +114,16 @@ Definition classify (lit : list N) : numclass :=
 
 Definition finite_lit (lit : list N) : bool :=
   match classify lit with CInf => false | _ => true end.
+
+(* exact widening of a finite binary32 bit pattern to binary64 (`x as f64`) *)
+Definition widen_f32 (bits : Z) : Z :=
+  let sign := bits / 2 ^ 31 in
+  let e := (bits / 2 ^ 23) mod 2 ^ 8 in
+  let m := bits mod 2 ^ 23 in
+  let s64 := sign * 2 ^ 63 in
+  if (e =? 0) && (m =? 0) then s64
+  else if e =? 0 then
+    (* subnormal binary32: m * 2^-149 is a normal binary64 *)
+    let k := Z.log2 m in
+    s64 + (k - 149 + 1023) * 2 ^ 52 + (m - 2 ^ k) * 2 ^ (52 - k)
+  else s64 + (e - 127 + 1023) * 2 ^ 52 + m * 2 ^ 29.
